@@ -46,11 +46,14 @@ fn summary(o: Out) -> String {
 }
 
 /// run the ceremonies under `sched` (None: each alone to completion, to learn how many polls it needs)
-fn execute<S: Inner + Clone + 'static>(shared: S, counter_on: bool, ops: &[COp], uv: UvState, sched: Option<&[usize]>) -> (Vec<String>, Vec<usize>, String, Vec<String>) {
+fn execute<S: Inner + Clone + 'static>(shared: S, counter_on: bool, ops: &[COp], uv: UvState, sched: Option<&[usize]>) -> (Vec<String>, Vec<usize>, String, Vec<String>) { execute_f(shared, counter_on, ops, uv, sched, &[]) }
+/// `faults[i]`: fault schedule of the i-th authenticator's store wrapper (store calls of that ceremony, 0-based)
+fn execute_f<S: Inner + Clone + 'static>(shared: S, counter_on: bool, ops: &[COp], uv: UvState, sched: Option<&[usize]>, faults: &[Vec<Option<u8>>]) -> (Vec<String>, Vec<usize>, String, Vec<String>) {
     let log = new_log();
     let uvst = Arc::new(Mutex::new(uv));
-    let mut auths: Vec<Authenticator<RecStore<S>, SharedUv>> = ops.iter().map(|_| {
+    let mut auths: Vec<Authenticator<RecStore<S>, SharedUv>> = ops.iter().enumerate().map(|(i, _)| {
         let mut store = RecStore::new(shared.clone(), log.clone()); store.yields = true;
+        if let Some(f) = faults.get(i) { store.faults = f.clone(); }
         let mut a = Authenticator::new(Aaguid::from(crate::util::AAGUID), store, SharedUv { st: uvst.clone(), log: log.clone(), yields: true });
         a.set_make_credentials_with_signature_counter(counter_on);
         a.set_make_credential_id_length(CredentialIdLength::from(16u8));
@@ -158,8 +161,72 @@ fn scenario_slow<S: Inner + Clone + 'static>(ctx: &mut Ctx, label: &str, mk: &dy
     }
 }
 
+/// scenarios judged by the statement's clauses alone under given call-by-call schedules (the model is not consulted):
+/// store failures in one of the ceremonies, validators that report no presence
+fn scenario_spec<S: Inner + Clone + 'static>(ctx: &mut Ctx, kind_name: &str, label: &str, mk: &dyn Fn(&[Passkey]) -> S, preload: &[Passkey], ops: &[COp], uv: UvState, faults: &[Vec<Option<u8>>]) {
+    let (_, polls, _, _) = execute_f(mk(preload), true, ops, uv, None, faults);
+    if polls.iter().any(|&p| p >= 64) { return; }
+    // the serial orders (every permutation of whole ceremonies) and a few interleavings
+    let n = ops.len();
+    let mut scheds: Vec<Vec<usize>> = vec![];
+    let mut order: Vec<usize> = (0..n).collect();
+    for _ in 0..(if n == 2 { 2 } else { 6 }) {
+        scheds.push(order.iter().flat_map(|&i| std::iter::repeat(i).take(polls[i])).collect());
+        let (a, b) = (ctx.rng.below(n as u64) as usize, ctx.rng.below(n as u64) as usize); order.swap(a, b);
+        if n == 2 { order = vec![1, 0]; }
+    }
+    let mut all = vec![]; merges(&polls, &mut vec![], &mut polls.clone(), &mut all, 400);
+    for _ in 0..6 { if !all.is_empty() { scheds.push(all[ctx.rng.below(all.len() as u64) as usize].clone()); } }
+    for sched in scheds {
+        let r = guarded(|| execute_f(mk(preload), true, ops, uv, Some(&sched), faults));
+        ctx.line(&format!("au.reset C19 {} 1 16 none", kind_name), "");
+        for p in preload { ctx.line(&format!("au.load {}", passkey_line(p)), ""); }
+        let s = sched.iter().map(|i| i.to_string()).collect::<Vec<_>>().join(",");
+        match r {
+            None => { ctx.line(&format!("cc.spec {} {}", label, s), "panic"); }
+            Some((sums, _, store, draws)) => {
+                for (i, op) in ops.iter().enumerate() {
+                    match op { COp::Get(g) => ctx.line(&format!("cc.thread G {} {}", g.enc(), uv.enc()), ""),
+                               COp::Make(m) => ctx.line(&format!("cc.thread M {} {} {}", m.enc(), uv.enc(), draws[i]), "") }
+                }
+                ctx.line(&format!("cc.spec {} {}", label, s), &format!("res={} store={}", sums.join("|"), store));
+            }
+        }
+        ctx.line("au.end", "");
+        ctx.stat(&format!("c19.spec_only.{}", label));
+    }
+}
+
 pub fn gen(ctx: &mut Ctx) {
     let rp = "example.com";
+    // ---- registrations of both kinds on stores of every capability behind both wrappers (all interleavings)
+    for wrapper in 0..2 {
+        for (kname, d) in [("ref:full", d_full_pub as fn() -> passkey_authenticator::DiscoverabilitySupport), ("ref:forced", d_forced_pub), ("ref:nondisc", d_non_pub)] {
+            let make = |ctx: &mut Ctx, rk: bool| { let mut m = simple_make(ctx, rp); m.rk = rk; COp::Make(m) };
+            let ops = if kname == "ref:nondisc" { vec![make(ctx, false), make(ctx, false)] } else { vec![make(ctx, true), make(ctx, false)] };
+            let fill = move |pre: &[Passkey]| { let mut m = RefStore::new(d); for p in pre { m.items.push(p.clone()); } m };
+            if wrapper == 0 { scenario(ctx, kname, &|pre: &[Passkey]| Arc::new(tokio::sync::Mutex::new(fill(pre))), &[], true, &ops, 400); }
+            else { scenario(ctx, kname, &|pre: &[Passkey]| Arc::new(tokio::sync::RwLock::new(fill(pre))), &[], true, &ops, 400); }
+            ctx.stat("c19.scenarios.capabilities");
+        }
+    }
+    // ---- assertions whose counter write-back the store refuses, and silent assertions (no presence asked, none reported)
+    for wrapper in 0..2 {
+        let id = vec![0xC1, 0x9B, 1, 2, 3, 4, 5, 6, 7, 8, 9, 10, 11, 12, 13, 14];
+        let pk = make_passkey(ctx, id.clone(), rp, Some(vec![7]), Some(5), None);
+        let get = |ctx: &mut Ctx, up: bool| { let mut g = simple_get(ctx, rp); g.allow = Some(vec![id.clone()]); g.up = up; COp::Get(g) };
+        let fill = |pre: &[Passkey]| { let mut m = MemoryStore::new(); for p in pre { m.insert(p.credential_id.clone().into(), p.clone()); } m };
+        let pre = vec![pk.clone()];
+        let silent = UvState { answer: Ok((false, true)), ..UvState::ok() };
+        for (label, ops, uv, faults) in [
+            ("update-refused", vec![get(ctx, true), get(ctx, true)], UvState::ok(), vec![vec![None, Some(0x30u8)], vec![]]),
+            ("update-refused-3", vec![get(ctx, true), get(ctx, true), get(ctx, true)], UvState::ok(), vec![vec![], vec![None, Some(0x7F)], vec![]]),
+            ("silent", vec![get(ctx, false), get(ctx, false)], silent, vec![]),
+            ("silent-3", vec![get(ctx, false), get(ctx, false), get(ctx, false)], silent, vec![])] {
+            if wrapper == 0 { scenario_spec(ctx, "map", label, &|pre: &[Passkey]| Arc::new(tokio::sync::Mutex::new(fill(pre))), &pre, &ops, uv, &faults); }
+            else { scenario_spec(ctx, "map", label, &|pre: &[Passkey]| Arc::new(tokio::sync::RwLock::new(fill(pre))), &pre, &ops, uv, &faults); }
+        }
+    }
     // ---- a slow backend behind each wrapper: the lock is held across a suspension point
     {
         let id = vec![0xC1, 0x9A, 1, 2, 3, 4, 5, 6, 7, 8, 9, 10, 11, 12, 13, 14];
